@@ -59,7 +59,7 @@ def run(ctx, report):
                    "column, row_group_offsets int/list/None, has_nulls True/False/'infer'/list, page size forcing 1..k pages, page v1/v2, stats, "
                    "int96, object_encoding, simple/hive, write_index); non-trivial = >=1 row and (a null or >=2 pages/row groups or a "
                    "non-default option); distinct by the case descriptor")
-    ncases = 96 if ctx.quick else 600
+    ncases = 98 if ctx.quick else 600
     for idx in range(ncases):
         case = wcases.gen_case(rng, idx, ctx.quick)
         df, desc = case["df"], case["desc"]
